@@ -155,4 +155,11 @@ def ofFields (a m d h mi s us : Int) (tz : Option Int) : Val :=
   if h = 24 then ofLocal (dayNumC a m d * US + US) tz
   else ⟨a, m, d, ((h * 60 + mi) * 60 + s) * 1000000 + us, tz⟩
 
+/-- order of durations (XSD 1.1 §3.3.6.2): `d1 op d2` holds iff `t + d1 op t + d2` for each of the four
+reference dateTimes 1696-09-01T00:00:00Z, 1697-02-01T00:00:00Z, 1903-03-01T00:00:00Z, 1903-07-01T00:00:00Z;
+a duration is (months, µs) -/
+def durationCmp (op : Int → Int → Bool) (m1 s1 m2 s2 : Int) : Bool :=
+  let refs : List Val := [⟨1696, 9, 1, 0, some 0⟩, ⟨1697, 2, 1, 0, some 0⟩, ⟨1903, 3, 1, 0, some 0⟩, ⟨1903, 7, 1, 0, some 0⟩]
+  refs.all fun t => op ((addYM t m1).instantC + s1) ((addYM t m2).instantC + s2)
+
 end EPV.Timeline
